@@ -569,6 +569,34 @@ static void c05_reconfig_phase(int G, int k, const vector<double> &seq, bool onl
     });
 }
 
+// Several connectors in ONE router: the orthogonal visibility graph then contains the endpoints of all of them (an endpoint of one connector is an
+// ordinary neighbour on the scan lines of another), although with no crossing/shared-path penalty the optimal cost of each connector is unchanged.
+// For every scene and every free point a: one router holding the connectors a -> b for EVERY other free point b; every raw route against the oracle.
+static void c05_star_phase(int G, int k, double penCells) {
+    vector<Poly> alpha = shape_alphabet(G, false);
+    ctx.phase(mcx::fmt("C05 orthogonal G=%d rects=%d segmentPenalty=%g cells, one router per source point holding the connectors to every other free point", G, k, penCells));
+    for_scenes(alpha, k, 1, true, [&](const vector<Poly> &sc) {
+        if (!ctx.next()) return;
+        vector<P> fr = free_points(sc, G); vector<R> rs; for (auto &p : sc) rs.push_back(toR(p));
+        OrthoGrid og(G, rs); ctx.count("states"); ctx.sample(mcx::fmt("star pen=%g ", penCells) + scene_str(sc));
+        for (size_t a = 0; a < fr.size(); a++) {
+            string desc0 = mcx::fmt("segmentPenalty=%g cells scene ", penCells) + scene_str(sc) + mcx::fmt(" one router with connectors from (%lld,%lld) to every other free point; ", fr[a].x, fr[a].y);
+            try {
+                Avoid::Router *r = mk_router(true, penCells * S, 0, sc); vector<Avoid::ConnRef *> cs; vector<size_t> bs;
+                for (size_t b = 0; b < fr.size(); b++) if (b != a) { cs.push_back(mk_conn(r, fr[a], fr[b], Avoid::ConnDirAll, Avoid::ConnDirAll)); bs.push_back(b); }
+                r->processTransaction(); ctx.count("transitions");
+                for (size_t q = 0; q < cs.size(); q++) { size_t b = bs[q]; ctx.count("evaluations"); bool diag = false; double cost = ortho_cost(cs[q]->route(), penCells, diag), o = og.best(fr[a].x, fr[a].y, fr[b].x, fr[b].y, penCells, 15, 15, 2);
+                    if (straight_blocked(sc, fr[a], fr[b]) || (fr[a].x != fr[b].x && fr[a].y != fr[b].y)) ctx.count("nontrivial");
+                    string desc = desc0 + mcx::fmt("conn ->(%lld,%lld)", fr[b].x, fr[b].y);
+                    if (diag) ctx.violation("not_axis_parallel", {}, desc, route_str(cs[q]->route()));
+                    else if (o < 1e17 && fabs(cost - o) > 1e-6) ctx.violation(cost > o ? "costlier_than_optimal" : "cheaper_than_possible", {}, desc, mcx::fmt("route cost %.9g optimum %.9g route ", cost, o) + route_str(cs[q]->route())); }
+                delete r;
+            } catch (vpsc::CriticalFailure &f) { ctx.library_abort(f.what(), desc0); }
+        }
+        ctx.done_case();
+    });
+}
+
 // true minimum number of bends in the free plane between a directed point and a directed target (0-1 BFS, no in-place U-turns)
 static int dxd(unsigned d) { return d == 2 ? 1 : d == 8 ? -1 : 0; }
 static int dyd(unsigned d) { return d == 4 ? 1 : d == 1 ? -1 : 0; }
@@ -631,8 +659,10 @@ int main(int argc, char **argv) {
         c05_bends(T ? 4 : 2);
         for (double pen : {0.5, 1.0, 2.0, 3.0, 10.0}) { c05_phase(4, 1, pen, false); c05_phase(4, 2, pen, false); }   // 1 and 3 cells: exact ties between "one more bend" and "k more cells"
         c05_phase(3, 1, 2, true); c05_phase(4, 1, 2, true); c05_phase(4, 2, 2, true); c05_phase(4, 3, 2, false); c05_phase(4, 3, 1, false);
+        c05_star_phase(4, 1, 2); c05_star_phase(4, 2, 2); c05_star_phase(4, 2, 0.5); c05_star_phase(3, 3, 1);
         c05_reconfig_phase(4, 1, {0.5, 1, 0.5, 3, 0.5, 10, 1, 3, 1, 10, 3, 10, 0.5}); c05_reconfig_phase(4, 2, {1, 10, 0.5}); c05_reconfig_phase(5, 2, {0.5, 1, 0.5, 3, 0.5, 10, 1, 3, 1, 10, 3, 10, 0.5}, true);
-        if (T) { c05_reconfig_phase(4, 3, {1, 10, 0.5}); c05_reconfig_phase(5, 2, {1, 10, 0.5}); c05_reconfig_phase(6, 2, {0.5, 1, 0.5, 3, 0.5, 10, 1, 3, 1, 10, 3, 10, 0.5}, true);
+        if (T) { c05_star_phase(5, 2, 2); c05_star_phase(4, 3, 2); c05_star_phase(5, 1, 0.5);
+                 c05_reconfig_phase(4, 3, {1, 10, 0.5}); c05_reconfig_phase(5, 2, {1, 10, 0.5}); c05_reconfig_phase(6, 2, {0.5, 1, 0.5, 3, 0.5, 10, 1, 3, 1, 10, 3, 10, 0.5}, true);
                  for (double pen : {0.5, 1.0, 2.0, 10.0}) c05_phase(5, 2, pen, false); c05_phase(5, 3, 2, false); c05_phase(4, 2, 0.5, true); }
     } else { fprintf(stderr, "need --prop C03|C04|C05\n"); return 3; }
     return ctx.finish();
